@@ -21,7 +21,12 @@ META = {
             "its length store lie inside the buffer the generator allocated, for all start / length, transferred to the real "
             "Slice.build_IR + copy_bytes + MemoryAllocator for the whole location x type x capacity x literal/run-time-length family "
             "(observed_slice_writes_in_buffer); builtins that materialise a byte string run as the topmost allocation of an internal "
-            "function while every local of the caller is compared with the source-level expectation.",
+            "function while every local of the caller is compared with the source-level expectation.  "
+            "Seed m6: staging the argument of x.append(arg) is the source semantics for every argument, the unstaged code of append_dyn_array "
+            "only for arguments that keep the length (staged_append_is_spec, lazy_append_is_spec_if_len_kept, lazy_append_refuted), and every "
+            "element expression the real Expr.parse_Call hands to append_dyn_array over the append family is a leaf or free of external calls / "
+            "stores next to the array's variables (observed_append_sites_ordered); append / subscript-assignment whose argument, index or value "
+            "mutates the same DynArray are run on the EVM against a python model of the source.",
     "level_note": "Trusted: Coq kernel + vm_compute, C03/LIR.v evaluator and Base/Word256.v (tied to pyrevm elsewhere), exporter "
                   "tools/vlib/c04_export.py (replaces the length load by a variable), hand models of both allocators (exact-output "
                   "differential).  NOT proved: preservation of the legacy free-list invariant by deallocate (differential + "
@@ -29,7 +34,11 @@ META = {
                   "subscript lowering (canary differential only).  Session 3 (slice buffer): trusted exporter tools/vlib/c04_slicebuf.py "
                   "(keeps the with-bindings an exported expression depends on, renames the loop index to ix), the semantics of `repeat` "
                   "(count asserted <= bound before the first iteration), `length <= dst_maxlen` for byte-addressed sources (given by the "
-                  "bounds check and len(src) <= maxlen); concat / abi_encode / convert buffers and all Venom copy loops: canaries only.",
+                  "bounds check and len(src) <= maxlen); concat / abi_encode / convert buffers and all Venom copy loops: canaries only.  "
+                  "Seed m6 (append sites): trusted observer tools/vlib/c04_selfmut.py (hooks vyper.codegen.expr.append_dyn_array; opcode walk through "
+                  "self-call bodies; the compiler's _referenced_variables annotations), assumption that an element expression without external call "
+                  "/ shared store keeps the array's length; legacy generator only -- the Venom append lowering and all subscript-assignment orders "
+                  "are covered by the EVM canaries only.",
     "technique": "Coq proof over observed IR templates (O-tie) + allocator models with exact-output differential + EVM canary contracts",
 }
 
@@ -37,6 +46,8 @@ COQ_FILES = ["C04/GenChecks.v", "C04/GenLegacy.v", "C04/GenVenomAlloc.v", "C04/A
              "C04/Frames.v", "C04/Concretize.v", "C04/MemLiveness.v", "C04/Fmp.v", "C04/Checks.v", "C04/PropsC04.v"]
 # session 3: buffer arithmetic of the legacy slice() generator (GenSliceBuf.v regenerated from the real Slice.build_IR)
 SLICEBUF_FILES = ["C04/SliceBufModel.v", "C04/GenSliceBuf.v", "C04/PropsSliceBuf.v"]
+# session 3 (seed m6): x.append(<arg>) whose argument may change x (GenSelfMut.v regenerated from the real Expr.parse_Call)
+SELFMUT_FILES = ["C04/SelfMutModel.v", "C04/SelfMutProofs.v", "C04/GenSelfMut.v", "C04/PropsSelfMut.v"]
 IMPORTS = "From Verif Require Import C04.AllocModel.\n"
 
 
@@ -570,6 +581,48 @@ def part_slice_buffers(ctx, quick, earlier_found):
     return n9, f9
 
 
+# ------------------------------------------------------------------ session 3 (seed m6): arguments / indices that mutate their own container
+def part_selfmut(ctx, quick, earlier_found):
+    """GenSelfMut.v: every (array, element) pair the real Expr.parse_Call hands to append_dyn_array while compiling the family, with
+    PropsSelfMut.v (no element expression that may change the array is evaluated after the length load); then the canaries, which are
+    the Search for that statement: append / subscript-assignment whose argument / index / value expression appends to or pops from the
+    same DynArray, judged against a python model of the source on the returned array, the stored array and guard variables."""
+    import time as _t
+    from vlib.configs import configs, core_configs
+    sm, sm_err, st = {"ok": True}, None, {}
+    _t0 = _t.time()
+    try:
+        from vlib.c04_selfmut import gen_append_sites
+        with warnings.catch_warnings():
+            warnings.simplefilter("ignore")
+            text, st = gen_append_sites()
+        (COQ / "C04" / "GenSelfMut.v").write_text(text)
+        ctx.corr["append_site_family"] = {k: v for k, v in st.items() if k != "unordered"}
+        ctx.extra["family_size"] = ctx.extra.get("family_size", 0) + st["family_size"]
+    except Exception as e:
+        sm_err = f"{type(e).__name__}: {e}"
+    if sm_err is None:
+        sm = ctx.coq_build_cached(SELFMUT_FILES)
+        if sm["ok"]:
+            ctx.extra["syntactic_matches"] = ctx.extra.get("syntactic_matches", 0) + st["family_size"]
+    ctx.log(f"part append sites (export + coq) {_t.time() - _t0:.1f}s")
+    n10, f10 = 0, False
+    if not earlier_found:
+        from vlib import c04_selfmut
+        _t0 = _t.time()
+        n10, f10 = c04_selfmut.run(ctx, core_configs() if quick else configs("quick"), 2 if quick else 6)
+        ctx.log(f"part self-mutating arguments {_t.time() - _t0:.1f}s")
+    if (sm_err is not None or not sm["ok"]) and not (earlier_found or f10):
+        if sm_err is not None:
+            ctx.violation("translator-rejected", "cannot observe the append sites of Expr.parse_Call / append_dyn_array: " + sm_err, {"error": sm_err})
+        else:
+            ctx.violation("theorem-broken", f"{sm.get('failed_lemma')} in {sm['file']} (an element expression that may change the array is evaluated "
+                          "after append_dyn_array has loaded the length)",
+                          {"theorem": sm.get("failed_lemma"), "file": sm["file"], "coq_output": sm["out"][-1500:],
+                           "unordered_sites": st.get("unordered", [])})
+    return n10, f10
+
+
 # ------------------------------------------------------------------ Search for a broken template
 def search_template(ctx):
     """A bounds-check template changed / theorem broke: the canary harness (which judges by the property's own
@@ -646,8 +699,10 @@ def run(ctx):
         ctx.log(f"part nested frames {_t.time() - _t8:.1f}s")
     # ---- session 3: slice() buffer arithmetic under Coq (O-tie) + builtin buffers at the top of a callee frame
     n9, f9 = part_slice_buffers(ctx, quick, f1 or f2 or f3 or f4 or f5 or f6 or f7 or f8)
-    total = n1 + n2 + n3 + n4 + n5 + n6 + n7 + n8 + n9
-    found = f1 or f2 or f3 or f4 or f5 or f6 or f7 or f8 or f9
+    # ---- session 3 (seed m6): append / subscript-assignment whose argument or index mutates the same container
+    n10, f10 = part_selfmut(ctx, quick, f1 or f2 or f3 or f4 or f5 or f6 or f7 or f8 or f9)
+    total = n1 + n2 + n3 + n4 + n5 + n6 + n7 + n8 + n9 + n10
+    found = f1 or f2 or f3 or f4 or f5 or f6 or f7 or f8 or f9 or f10
     if (gen_err is not None or not b["ok"]) and not found:
         if gen_err is not None:
             ctx.violation("translator-rejected", "cannot export the bounds-check templates: " + gen_err, {"error": gen_err})
